@@ -116,8 +116,12 @@ pub fn gen_sample_set(rng: &mut Rng, o: &GenOpts) -> SampleSet {
         base.push(random_seq(rng, l));
     }
     let mut samples = vec![];
+    // PanSN sets: sometimes two haplotypes per individual (i00#1, i00#2, i01#1, …) instead of one
+    // individual per sample (s000#1, s001#1, …)
+    let haplotypes = o.pansn && rng.chance(1, 2);
     for s in 0..o.n_samples {
-        let name = format!("s{:03}", s);
+        let name = if haplotypes { format!("i{:02}", s / 2) } else { format!("s{:03}", s) };
+        let hap = if haplotypes { 1 + s % 2 } else { 1 };
         let mut contigs: Vec<(String, Vec<u8>)> = vec![];
         let mut order: Vec<usize> = (0..base.len()).collect();
         if s > 0 && o.structural {
@@ -163,7 +167,7 @@ pub fn gen_sample_set(rng: &mut Rng, o: &GenOpts) -> SampleSet {
                 }
             }
             let ctg = format!("ctg{}", ci);
-            let mut header = if o.pansn { format!("{}#1#{}", name, ctg) } else { format!("{}_{}", name, ctg) };
+            let mut header = if o.pansn { format!("{}#{}#{}", name, hap, ctg) } else { format!("{}_{}", name, ctg) };
             if o.descriptions && rng.chance(1, 2) {
                 header.push_str(&format!(" len={} desc  x", seq.len()));
             }
@@ -172,10 +176,10 @@ pub fn gen_sample_set(rng: &mut Rng, o: &GenOpts) -> SampleSet {
         if s > 0 && o.structural && rng.chance(1, 5) {
             // extra contig not in the reference
             let len = rng.range(1, o.len_hi as u64) as usize;
-            let header = if o.pansn { format!("{}#1#extra", name) } else { format!("{}_extra", name) };
+            let header = if o.pansn { format!("{}#{}#extra", name, hap) } else { format!("{}_extra", name) };
             contigs.push((header, random_seq(rng, len)));
         }
-        samples.push(Sample { name: if o.pansn { format!("{}#1", name) } else { name }, contigs });
+        samples.push(Sample { name: if o.pansn { format!("{}#{}", name, hap) } else { name }, contigs });
     }
     SampleSet { samples }
 }
